@@ -15,6 +15,7 @@ import json
 import os
 import pickle
 import shutil
+import signal
 import subprocess
 import sys
 import tempfile
@@ -128,8 +129,11 @@ def fork_map(fn, tasks: list, workers: int, timeout_s: float):
             if pid == 0:
                 code = 0
                 try:
+                    # NB: faulthandler.dump_traceback_later deadlocks in a forked child whose parent
+                    # had a watchdog armed (nested forks in C18); SIGALRM + register is fork-safe.
                     faulthandler.enable()
-                    faulthandler.dump_traceback_later(max(1.0, timeout_s - 0.5), exit=True)
+                    faulthandler.register(signal.SIGALRM, all_threads=True)
+                    signal.alarm(max(1, int(timeout_s)))
                     try:
                         payload = ("ok", fn(task))
                     except BaseException:  # noqa: BLE001
